@@ -118,7 +118,7 @@ def h_symtab(ctx):
     k = cfg['k']
     ctx.outcome('ok')
     ctx.check_eq('symtab/num_symbols', symtab.num_symbols(), k)
-    got = ctx.drain(symtab.iter_symbols())
+    got = ctx.walk(lambda: symtab.iter_symbols())
     ctx.check_eq('symtab/iter/count', len(got), k)
     for i, (s, w) in enumerate(zip(got, syms)):
         ctx.check_eq('symtab/st_value', s['st_value'], w['st_value'])
@@ -155,7 +155,7 @@ def h_text(ctx):
     strtab = SEC.StringTableSection(_shdr(sh_type='SHT_STRTAB', sh_offset=0, sh_size=len(tab)), '.strtab', elf)
     symtab = SEC.SymbolTableSection(_shdr(sh_offset=symoff, sh_size=len(names) * symsz, sh_entsize=symsz), '.symtab', elf, strtab)
     ctx.outcome('ok')
-    ctx.check_eq('text/names', [s.name for s in ctx.drain(symtab.iter_symbols())], names)
+    ctx.check_eq('text/names', [s.name for s in ctx.walk(lambda: symtab.iter_symbols())], names)
     for q in names[1:4]:
         r = symtab.get_symbol_by_name(q)
         ctx.check_eq('text/by-name/' + q.encode('unicode_escape').decode(), None if r is None else [x['st_value'] for x in r], [0x10 + i for i, n in enumerate(names) if n == q])
@@ -250,7 +250,7 @@ def h_syminfo(ctx):
     sec = SEC.SUNWSyminfoTableSection(_shdr(sh_type='SHT_SUNW_syminfo', sh_offset=0, sh_size=4 * (k + 1), sh_entsize=4), '.SUNW_syminfo', elf, symtab)
     ctx.outcome('ok')
     ctx.check_eq('syminfo/num_symbols', sec.num_symbols(), k)
-    got = ctx.drain(sec.iter_symbols())
+    got = ctx.walk(lambda: sec.iter_symbols())
     ctx.check_eq('syminfo/count', len(got), k)
     for i, s in enumerate(got):
         _enum_ok(ctx, 'syminfo/boundto', s['si_boundto'], recs[i + 1][0])
